@@ -127,3 +127,45 @@ Section Affine.
 
   Definition sumsq (v : 'cV[R]_m) : R := \sum_i v i 0 ^+ 2.
 End Affine.
+
+(* ---- the Jacobian solver as a function of the call's own arguments ------------------- *)
+(* One JacobianSolver.step iteration away from limits and without bisection.  The only
+   state carried between calls is the current point and the Jacobian cache of the
+   Broyden update; rcond, sing_val_cutoff and broyden are parameters of the call. *)
+Section SolverSteps.
+  Variables (R : realFieldType) (m n : nat).
+
+  Record call_args := mk_call { ca_rcond : option R; ca_cutoff : option nat; ca_broyden : bool }.
+
+  Record sstate := mk_sstate {
+    st_x : 'cV[R]_n;
+    st_cache : option ('M[R]_(m, n) * 'cV[R]_n * 'cV[R]_m) }.    (* _last_jac, _last_jac_x, _last_y *)
+
+  Variable f : 'cV[R]_n -> 'cV[R]_m.                 (* the merit function *)
+  Variable h : 'cV[R]_n.                             (* finite-difference steps *)
+  Variable col : aexpr.                              (* the extracted forward-difference column (fd_column) *)
+  (* SVD(jac).lstsq(y, rcond=..., sing_val_cutoff=...): decomposition and solution, as a
+     function of the call's arguments, the Jacobian and the right-hand side *)
+  Variable lst : call_args -> 'M[R]_(m, n) -> 'cV[R]_m -> 'cV[R]_n.
+
+  (* jac = last + outer(dy - last @ dx, dx) / dot(dx, dx) *)
+  Definition broyden_update (Jl : 'M[R]_(m, n)) (xl : 'cV[R]_n) (yl : 'cV[R]_m) (x : 'cV[R]_n) (y : 'cV[R]_m) :=
+    let dx := x - xl in
+    let dy := y - yl in
+    Jl + ((dx^T *m dx) 0 0)^-1 *: ((dy - Jl *m dx) *m dx^T).
+
+  Definition step_jac (a : call_args) (st : sstate) : 'M[R]_(m, n) :=
+    match ca_broyden a, st_cache st with
+    | true, Some (Jl, xl, yl) => broyden_update Jl xl yl (st_x st) (f (st_x st))
+    | _, _ => fd_jac col f (st_x st) h
+    end.
+
+  Definition solver_step (a : call_args) (st : sstate) : sstate :=
+    let x := st_x st in
+    let y := f x in
+    let J := step_jac a st in
+    mk_sstate (x - lst a J y) (Some (J, x, y)).
+
+  Definition run_calls (calls : seq call_args) (st : sstate) : sstate :=
+    foldl (fun s a => solver_step a s) st calls.
+End SolverSteps.
